@@ -70,6 +70,10 @@ struct fault {
 };
 static struct fault g_fault[2];
 static long g_class_calls = 0;  // calls under root matching g_count_classes since last clear
+#define TRACE_CAP 8192
+static int g_call_trace[TRACE_CAP];  // class of every fault_check call since last clear
+static long g_call_trace_n = 0;
+#define C_AFTER_SLOT0 0x1000  // slot 1 only starts counting once slot 0 has fired
 static int g_count_classes = 0x1ff;
 
 // clock
@@ -150,12 +154,27 @@ static void log_rec(uint32_t kind, uint64_t ino, int64_t off, int64_t aux, const
   g_log_len += total;
 }
 
+static int role_code(const char *p) {
+  if (!p) return 0;
+  const char *b = strrchr(p, '/');
+  b = b ? b + 1 : p;
+  if (!strncmp(b, "wal_", 4)) return 1;
+  if (!strncmp(b, "MANIFEST", 8)) return 2;
+  if (!strncmp(b, "snapshot_", 9)) return 3;
+  return 4;
+}
+static const char *g_cur_path = NULL;  // set by callers (under g_mu) before fault_check
+
 // returns: 0 no fault; 1 fail with *err; 2 short write of *slen bytes
 static int fault_check(int cls, int *err, long *slen) {
   if (cls & g_count_classes) g_class_calls++;
+  if (g_call_trace_n < TRACE_CAP) g_call_trace[g_call_trace_n] = cls | (role_code(g_cur_path) << 16);
+  g_cur_path = NULL;
+  g_call_trace_n++;
   for (int i = 0; i < 2; i++) {
     struct fault *f = &g_fault[i];
     if (!f->armed || !(f->classes & cls)) continue;
+    if (i == 1 && (f->classes & C_AFTER_SLOT0) && !g_fault[0].fired) continue;
     if (f->nth > 1) {
       f->nth--;
       continue;
@@ -216,7 +235,7 @@ long kvshim_ctl(long cmd, long a, long b) {
   switch (cmd) {
     case 1: g_log_on = 1; break;
     case 2: g_log_on = 0; break;
-    case 3: g_log_len = 0; g_seq = 0; g_class_calls = 0; break;
+    case 3: g_log_len = 0; g_seq = 0; g_class_calls = 0; g_call_trace_n = 0; break;
     case 4: g_clock_mode = (int)a; break;
     case 5: g_rt_ns += a; g_mono_ns += a; break;
     case 6: g_rt_ns = a; break;
@@ -229,6 +248,9 @@ long kvshim_ctl(long cmd, long a, long b) {
     case 14: g_rt_tick = a; g_mono_tick = b; break;
     case 15: g_count_classes = (int)a; g_class_calls = 0; break;
     case 16: r = (long)g_mono_ns; break;
+    case 17: r = (a >= 0 && a < g_call_trace_n && a < TRACE_CAP) ? g_call_trace[a] : -1; break;
+    case 18: r = g_call_trace_n; break;
+    case 19: g_call_trace_n = 0; g_class_calls = 0; break;
     default: r = -1;
   }
   pthread_mutex_unlock(&g_mu);
@@ -262,7 +284,7 @@ static int do_open(int dirfd, const char *path, int flags, mode_t mode) {
     pthread_mutex_lock(&g_mu);
     int err = 0;
     long sl = 0;
-    int f = fault_check(C_OPEN, &err, &sl);
+    g_cur_path = ap; int f = fault_check(C_OPEN, &err, &sl);
     pthread_mutex_unlock(&g_mu);
     if (f == 1) {
       errno = err;
@@ -338,7 +360,7 @@ static ssize_t do_write(int fd, const void *buf, size_t n, int64_t at_off, int p
   int err = 0;
   long sl = -1;
   pthread_mutex_lock(&g_mu);
-  int f = fault_check(C_WRITE, &err, &sl);
+  g_cur_path = p; int f = fault_check(C_WRITE, &err, &sl);
   pthread_mutex_unlock(&g_mu);
   if (f == 1) {
     errno = err;
@@ -403,7 +425,7 @@ static int do_sync(int fd, int data_only) {
   int err = 0;
   long sl = -1;
   pthread_mutex_lock(&g_mu);
-  int f = fault_check(isdir ? C_FSYNC_DIR : (data_only ? C_FDATASYNC : C_FSYNC), &err, &sl);
+  g_cur_path = isdir ? "/" : p; int f = fault_check(isdir ? C_FSYNC_DIR : (data_only ? C_FDATASYNC : C_FSYNC), &err, &sl);
   pthread_mutex_unlock(&g_mu);
   if (f == 1) {
     errno = err;
@@ -428,7 +450,7 @@ static int do_ftruncate(int fd, int64_t len) {
   int err = 0;
   long sl = -1;
   pthread_mutex_lock(&g_mu);
-  int f = fault_check(C_FTRUNCATE, &err, &sl);
+  g_cur_path = p; int f = fault_check(C_FTRUNCATE, &err, &sl);
   pthread_mutex_unlock(&g_mu);
   if (f == 1) {
     errno = err;
@@ -460,7 +482,7 @@ static int do_rename(int od, const char *o, int nd, const char *n) {
   int err = 0;
   long sl = -1;
   pthread_mutex_lock(&g_mu);
-  int f = fault_check(C_RENAME, &err, &sl);
+  g_cur_path = an; int f = fault_check(C_RENAME, &err, &sl);
   pthread_mutex_unlock(&g_mu);
   if (f == 1) {
     errno = err;
@@ -491,7 +513,7 @@ static int do_unlink(int dirfd, const char *path, int flags) {
   int err = 0;
   long sl = -1;
   pthread_mutex_lock(&g_mu);
-  int f = fault_check(C_UNLINK, &err, &sl);
+  g_cur_path = ap; int f = fault_check(C_UNLINK, &err, &sl);
   pthread_mutex_unlock(&g_mu);
   if (f == 1) {
     errno = err;
@@ -523,7 +545,7 @@ int mkdir(const char *path, mode_t mode) {
     int err = 0;
     long sl = -1;
     pthread_mutex_lock(&g_mu);
-    int f = fault_check(C_MKDIR, &err, &sl);
+    g_cur_path = ap; int f = fault_check(C_MKDIR, &err, &sl);
     pthread_mutex_unlock(&g_mu);
     if (f == 1) {
       errno = err;
